@@ -22,7 +22,17 @@ func init() {
 			}},
 			{ID: "R13k", Statement: "every record read is stored", Run: func(p *Program, r *Report) {
 				r.Rule("R13k", "STORE-EVERY-RECORD: a loop of the map forest's restore function that rebuilds the node store or the leaf index stores on every iteration - no record the stream carried is left out of the restored forest")
-				checkStoreEveryRecord(p, r, "R13k", []string{"(*MapPollard).Read"}, 2)
+				var names []string
+				if e := p.Func("(*MapPollard).Read"); e != nil {
+					for _, f := range sortedFuncs(p, p.Reach(e)) {
+						if f.Parent() == nil && p.owns(f) {
+							names = append(names, p.FuncName(f))
+						}
+					}
+				} else {
+					names = []string{"(*MapPollard).Read"}
+				}
+				checkStoreEveryRecord(p, r, "R13k", names, 2)
 			}},
 			{ID: "R13", Statement: "io.Reader / io.Writer discipline of the serialization code", Run: runIODiscipline},
 		},
